@@ -3,7 +3,7 @@ under test and compared with a reference written from the statements of C03 (C10
 
   PYTHONPATH=<tree> /venv/bin/python invfam.py --search [--hints a,b] | --scenario f.json
 A program: {"classes": [cls...], "ops": [op...]}
-  cls = {"name", "base": name|null, "dbc": bool, "invs": [{"attr": a, "on": "CALL"|"SETATTR"|"ALL", "kind": "pos"|"coro"|"calls_pub"}],
+  cls = {"name", "base": name|null, "dbc": bool, "attrs": {class-level defaults}, "invs": [{"attr": a, "on": "CALL"|"SETATTR"|"ALL", "kind": "pos"|"coro"|"calls_pub"}],
          "init": null | {"super": "first"|"last"|"none", "sets": [attr...]}, "defines": [method names], "slots": bool}
   op  = ["new", cls] | ["call", method] | ["set", attr, value] | ["poke", attr, value]   (poke bypasses __setattr__)
 Invariant `pos` on attribute a means  self.a > 0 .  Methods: pub, _priv, __call__, async_pub (async def), prop (property).
@@ -67,6 +67,7 @@ def build(prog):
                     return 7
                 meth.__name__ = m
                 ns[m] = meth
+        ns.update(c.get("attrs", {}))  # class-level defaults (for classes without a constructor)
         if c.get("setattr"):
             def __setattr__(self, k, v, _n=name):
                 LOG.append(["body", _n + ".__setattr__"])
@@ -155,6 +156,8 @@ def reference(prog):
         if op[0] == "new":
             cur = op[1]
             state = {}
+            for c in chain(prog, cur):
+                state.update(c.get("attrs", {}))
 
             def run_init(c):
                 log.append(["body", c["name"] + ".__init__"])
@@ -277,6 +280,13 @@ def programs(hints=()):
         sub = {"name": "B", "base": "A", "invs": [], "init": None, "defines": ["pub"], "setattr": False}
         out.append(("check_on inheritance " + "+".join(order), {"classes": [base, sub], "ops": [["new", "B"], ["call", "pub"], ["set", "x", 5], ["poke", "x", -1], ["call", "pub"], ["poke", "x", 1], ["set", "x", -1]]}))
         out.append(("check_on " + "+".join(order), {"classes": [base], "ops": [["new", "A"], ["call", "pub"], ["set", "x", 5], ["set", "x", -1]]}))
+    # classes without a constructor of their own: every invariant, whatever its check_on, is evaluated when the instance is made
+    for order in (["CALL"], ["SETATTR"], ["ALL"], ["SETATTR", "CALL"]):
+        for x0 in (1, -1):
+            noinit = A(invs=[inv("x", on=o) for o in order], init=None, attrs={"x": x0}, setattr=True)
+            out.append(("no constructor %s x=%d" % ("+".join(order), x0), {"classes": [noinit], "ops": [["new", "A"], ["call", "pub"], ["set", "x", 2], ["set", "x", -1]]}))
+            sub = {"name": "B", "base": "A", "invs": [], "init": None, "defines": ["pub"], "setattr": False}
+            out.append(("no constructor inherited %s x=%d" % ("+".join(order), x0), {"classes": [noinit, sub], "ops": [["new", "B"], ["call", "pub"], ["set", "x", -1]]}))
     out.append(("two invariants order", {"classes": [A(invs=[inv("x"), inv("z")], init={"super": "none", "sets": ["x", "z"]})],
                                          "ops": [["new", "A"], ["poke", "x", -1], ["poke", "z", -1], ["call", "pub"]]}))
     B2 = {"name": "B", "base": "A", "invs": [inv("y")], "init": {"super": "first", "sets": ["y"]}, "defines": []}
